@@ -3,6 +3,7 @@
 # applies a sed mutation to /repo, runs the check, reverts. For engine development only.
 prop=$1; file=$2; expr=$3; shift 3
 cd /repo || exit 2
+if ! git diff --quiet -- "*zz_verif_contracts.go"; then echo "UNCOMMITTED CONTRACT EDITS in /repo - commit them first"; exit 2; fi
 cp "$file" /var/tmp/mut_backup.$$ 
 sed -i "$expr" "$file"
 if cmp -s "$file" /var/tmp/mut_backup.$$; then echo "MUTATION DID NOT APPLY"; fi
